@@ -366,7 +366,7 @@ func (s *qgServer) tool(st qgStep) (o qgObs, err error) {
 	_, _, _, own := daisen2.VerifDataQueryLimits()
 	grace := time.Duration(own) + 8*time.Second
 	if st.DeadlineMS >= 0 {
-		grace = time.Duration(st.DeadlineMS*float64(time.Millisecond)) + 8*time.Second // above the driver's 5 s busy timeout
+		grace = time.Duration(st.DeadlineMS*float64(time.Millisecond)) + 6500*time.Millisecond // above the driver's 5 s busy timeout
 	}
 	select {
 	case r := <-ch:
